@@ -73,6 +73,16 @@ pub struct InProcClient {
     pub route: Arc<std::sync::Mutex<Vec<&'static str>>>,
 }
 
+/// Every buffer that crosses the (in-process) wire, when the tap is on (C03).
+pub static WIRE_TAP: std::sync::Mutex<Option<Vec<u8>>> = std::sync::Mutex::new(None);
+
+pub fn tap(bytes: &[u8]) {
+    if let Some(buf) = WIRE_TAP.lock().unwrap().as_mut() {
+        buf.extend_from_slice(bytes);
+        buf.extend_from_slice(b"\n--\n");
+    }
+}
+
 fn perr(msg: impl std::fmt::Display) -> sos_protocol::Error {
     sos_protocol::Error::Io(std::io::Error::other(msg.to_string()))
 }
@@ -126,6 +136,7 @@ impl SyncClient for InProcClient {
 
     async fn create_account(&self, account: CreateSet) -> Result<(), Self::Error> {
         let bytes = account.encode().await?;
+        tap(&bytes);
         let account = CreateSet::decode(bytes::Bytes::from(bytes)).await?;
         let mut writer = self.backend.write().await;
         writer
@@ -137,6 +148,7 @@ impl SyncClient for InProcClient {
     async fn update_account(&self, account: UpdateSet) -> Result<(), Self::Error> {
         self.pass("update").await;
         let bytes = account.encode().await?;
+        tap(&bytes);
         let account = UpdateSet::decode(bytes::Bytes::from(bytes)).await?;
         let mut writer = self.backend.write().await;
         writer
@@ -151,6 +163,7 @@ impl SyncClient for InProcClient {
         let account: CreateSet =
             reader.fetch_account(&self.account_id).await.map_err(perr)?;
         let bytes = account.encode().await?;
+        tap(&bytes);
         Ok(CreateSet::decode(bytes::Bytes::from(bytes)).await?)
     }
 
@@ -166,12 +179,14 @@ impl SyncClient for InProcClient {
         let status = account.sync_status().await.map_err(perr)?;
         self.served("status");
         let bytes = status.encode().await?;
+        tap(&bytes);
         Ok(SyncStatus::decode(bytes::Bytes::from(bytes)).await?)
     }
 
     async fn sync(&self, packet: SyncPacket) -> Result<SyncPacket, Self::Error> {
         self.pass("sync").await;
         let bytes = packet.encode().await?;
+        tap(&bytes);
         let account = self.server_account().await?;
         let packet = SyncPacket::decode(bytes::Bytes::from(bytes)).await?;
         let (packet, _outcome) = {
@@ -185,12 +200,14 @@ impl SyncClient for InProcClient {
         };
         self.served("sync");
         let bytes = packet.encode().await?;
+        tap(&bytes);
         Ok(SyncPacket::decode(bytes::Bytes::from(bytes)).await?)
     }
 
     async fn scan(&self, request: ScanRequest) -> Result<ScanResponse, Self::Error> {
         self.pass("scan").await;
         let bytes = request.encode().await?;
+        tap(&bytes);
         let account = self.server_account().await?;
         let req = ScanRequest::decode(bytes::Bytes::from(bytes)).await?;
         if req.limit > 256 {
@@ -203,6 +220,7 @@ impl SyncClient for InProcClient {
                 .map_err(perr)?;
         self.served("scan");
         let bytes = response.encode().await?;
+        tap(&bytes);
         Ok(ScanResponse::decode(bytes::Bytes::from(bytes)).await?)
     }
 
@@ -210,6 +228,7 @@ impl SyncClient for InProcClient {
         self.pass(if request.from_hash.is_some() { "diff" } else { "diffall" })
             .await;
         let bytes = request.encode().await?;
+        tap(&bytes);
         let account = self.server_account().await?;
         let req = DiffRequest::decode(bytes::Bytes::from(bytes)).await?;
         let reader = account.read().await;
@@ -219,12 +238,14 @@ impl SyncClient for InProcClient {
                 .map_err(perr)?;
         self.served("diff");
         let bytes = response.encode().await?;
+        tap(&bytes);
         Ok(DiffResponse::decode(bytes::Bytes::from(bytes)).await?)
     }
 
     async fn patch(&self, request: PatchRequest) -> Result<PatchResponse, Self::Error> {
         self.pass("patch").await;
         let bytes = request.encode().await?;
+        tap(&bytes);
         let account = self.server_account().await?;
         let req = PatchRequest::decode(bytes::Bytes::from(bytes)).await?;
         let (response, _outcome) = {
@@ -235,6 +256,7 @@ impl SyncClient for InProcClient {
         };
         self.served("patch");
         let bytes = response.encode().await?;
+        tap(&bytes);
         Ok(PatchResponse::decode(bytes::Bytes::from(bytes)).await?)
     }
 }
@@ -390,6 +412,7 @@ impl SyncWorld {
         {
             let create_set = first.account.create_set().await?;
             let bytes = create_set.encode().await?;
+            tap(&bytes);
             let create_set =
                 CreateSet::decode(bytes::Bytes::from(bytes)).await?;
             let mut writer = server.write().await;
